@@ -52,7 +52,7 @@ LEAN = {"module": "Pygom.Props.C16",
                      "Pygom.C16.first_wait_is_min_of_draws", "Pygom.C16.different_first_wait_different_path",
                      "Pygom.C16.different_streams_same_output_counterexample"]}
 BUDGET = {"quick": {"stoch": 500, "param": 300},
-          "thorough": {"stoch": 3000, "param": 2200, "max_steps": 1000, "steps": [30, 80, 200, 400]}}
+          "thorough": {"stoch": 4000, "param": 3000, "max_steps": 1000, "steps": [30, 80, 200, 400]}}
 RULE = ("serial calls only (parallel=False). STOCH cases: bounded-rate event models of the shared generator (1-5 states, 1-5 events, "
         "all API routes, derived parameters), integer initial states, x {exact, adaptive tau, fixed tau with steps large enough to be "
         "rejected by the limits}, n = 1..6 iterations, horizon as number / one-element list / grid (list, tuple, array), 30% with "
